@@ -33,7 +33,10 @@ def where_text(w, i):
     return {"none": "", "a": f" WHERE a{i}.p = 1", "b": f" WHERE b{i}.p = 1", "ab": f" WHERE a{i}.p = 1 AND b{i}.p = 1"}[w]
 
 
-def run_pops(bindir, root, pops, layout, shards):
+def run_pops(bindir, root, pops, layout, shards, time_mode="core"):
+    """time_mode "core": the model's time is the core timestamp (clock hook).  "payload": the model's time is a payload
+    datetime field `at` named by USING TIME; events of a type are stored latest-first and the core timestamps run the
+    other way, so neither ingestion order nor the core timestamp agrees with the time the query must use."""
     if root.exists():
         shutil.rmtree(root)
     root.mkdir(parents=True)
@@ -41,14 +44,21 @@ def run_pops(bindir, root, pops, layout, shards):
     steps = []
     for i, p in enumerate(pops):
         for t in ("a", "b"):
-            steps.append({"op": "cmd", "text": f'DEFINE {t}{i} FIELDS {{ k: "int", u: "string | null", p: "int" }}', "tag": ["define"]})
+            at = ', at: "datetime"' if time_mode == "payload" else ""
+            steps.append({"op": "cmd", "text": f'DEFINE {t}{i} FIELDS {{ k: "int", u: "string | null", p: "int"{at} }}', "tag": ["define"]})
     for i, p in enumerate(pops):
         evs = [("a", j + 1, e) for j, e in enumerate(p["pop"]["a"])] + [("b", j + 11, e) for j, e in enumerate(p["pop"]["b"])]
+        if time_mode == "payload":
+            evs.sort(key=lambda x: (x[0], -x[2]["ts"], -x[1]))
         for (t, k, e) in evs:
             payload = {"k": k, "p": e["p"]}
             if e["link"] != -1:
                 payload["u"] = f"u{e['link']}"
-            steps.append({"op": "clock_secs", "t": T0 + e["ts"]})
+            if time_mode == "payload":
+                payload["at"] = T0 + e["ts"]
+                steps.append({"op": "clock_secs", "t": T0 + 1000 - e["ts"]})
+            else:
+                steps.append({"op": "clock_secs", "t": T0 + e["ts"]})
             steps.append({"op": "cmd", "text": f"STORE {t}{i} FOR c{k} PAYLOAD {json.dumps(payload)}", "tag": ["store", k]})
     if layout == "flushed":
         steps.append({"op": "cmd", "text": "FLUSH", "tag": ["flush"]})
@@ -57,7 +67,8 @@ def run_pops(bindir, root, pops, layout, shards):
         for c in p["cases"]:
             kw = "FOLLOWED BY" if c["dir"] == "followed" else "PRECEDED BY"
             for lim in (None, 1, 2):
-                text = f"QUERY a{i} {kw} b{i} LINKED BY u{where_text(c['where'], i)}" + (f" LIMIT {lim}" if lim else "")
+                text = (f"QUERY a{i} {kw} b{i} LINKED BY u" + (" USING TIME at" if time_mode == "payload" else "") + where_text(c['where'], i)
+                        + (f" LIMIT {lim}" if lim else ""))
                 keys.append((i, c["dir"], c["where"], lim))
                 qs.append((len(qs), text))
         keys.append((i, "ambiguous", None, None))
@@ -95,13 +106,14 @@ def run(tier):
     bindir = core.build_harness(("vdrive",))
     stats = Counter()
     pops, r = gen("SeqGen_q.cfg" if tier == "quick" else "SeqGen_t.cfg", core.seed())
-    placements = [("mem", 2), ("flushed", 2)] if tier == "quick" else [("mem", 1), ("mem", 3), ("flushed", 1), ("flushed", 3)]
+    placements = ([("mem", 2, "core"), ("flushed", 2, "core"), ("mem", 2, "payload"), ("flushed", 2, "payload")] if tier == "quick" else
+                  [("mem", 1, "core"), ("mem", 3, "core"), ("flushed", 1, "core"), ("flushed", 3, "core"), ("mem", 3, "payload"), ("flushed", 1, "payload"), ("flushed", 3, "payload")])
     per_placement = {}
-    for (layout, shards) in placements:
+    for (layout, shards, time_mode) in placements:
         batch = 60
         for b0 in range(0, len(pops), batch):
             sub = pops[b0:b0 + batch]
-            res, problems = run_pops(bindir, core.WORK / "c15" / f"{layout}-{shards}-{b0}", sub, layout, shards)
+            res, problems = run_pops(bindir, core.WORK / "c15" / f"{layout}-{shards}-{time_mode}-{b0}", sub, layout, shards, time_mode)
             if problems:
                 chk.violation(f"could not build populations ({layout}, {shards} shards): {problems[:2]}", {"problems": problems[:3]})
                 continue
@@ -164,7 +176,7 @@ def run(tier):
     chk.cov["rule"] = ("one evaluation = one sequence request (direction x WHERE form x LIMIT) on one TLC-drawn population in one placement; "
                        "non-trivial = some but not all heads have a qualifying partner and the engine matched exactly those")
     chk.cov["stats"] = dict(stats)
-    chk.assumptions += ["time = core timestamp injected through the clock hook (payload datetime + USING TIME not yet covered)",
+    chk.assumptions += ["time = core timestamp injected through the clock hook, or a payload datetime field named by USING TIME with ingestion order and core timestamps running against it",
                         "one link field; sequences of exactly two event types"]
     return chk.finish()
 
